@@ -254,6 +254,15 @@ def ttl_cases():
             if not any(f[0] in (b'multi', b'exec') for f in a if isinstance(f, list)):
                 # one clock reading for the whole block
                 yield pre + [[b'multi']] + a + after + [[b'setnx', b'k', b'again'], [b'dbsize'], [b'exec']] + after
+    # a key holding the empty string is a key like any other for every deadline command (without and with a deadline, directly and inside MULTI)
+    for mk in ([[b'set', b'k', b'']], [[b'set', b'k', b'', b'ex', b'100']], [[b'setex', b'k', b'100', b'']], [[b'set', b'k', b'v'], [b'setrange', b'k', b'0', b'']],
+               [[b'set', b'k', b'x', b'ex', b'50'], [b'set', b'k', b'', b'keepttl']], [[b'set', b'k', b''], [b'rename', b'k', b'k']]):
+        for act in ([[b'expire', b'k', b'70']], [[b'pexpire', b'k', b'1500']], [[b'expireat', b'k', b'2000000']], [[b'pexpireat', b'k', b'2000000000']], [[b'persist', b'k']],
+                    [[b'expire', b'k', b'0']], [[b'ttl', b'k']], [[b'getset', b'k', b'']], [[b'append', b'k', b'']], [[b'set', b'k', b'', b'xx']], [[b'move', b'k', b'1'], [b'select', b'1']],
+                    [[b'rename', b'k', b'k2'], [b'ttl', b'k2'], [b'pexpire', b'k2', b'900'], [b'pttl', b'k2']], [[b'setnx', b'k', b'v']], [[b'incrbyfloat', b'k', b'0']]):
+            yield Always(mk + act + after)
+            yield Always(mk + [[b'multi']] + act + after + [[b'exec']])
+            yield Always(mk + act + [('adv', 100001)] + after + [[b'dbsize']])
     # one clock reading (inside EXEC) for whole-keyspace views of two databases that trade places: a database nobody has looked at since the
     # deadline passed must still be swept when it is reached through SWAPDB / SELECT / MOVE
     whole = [[b'dbsize'], [b'keys', b'*'], [b'scan', b'0', b'count', b'100'], [b'randomkey']]
